@@ -58,6 +58,20 @@ MANIFEST = {
                  "correspondence: AST/regex extraction, model-vs-implementation differential, oracle on the serialised access-log line",
 }
 
+
+_FAIL_SEEN: dict[str, int] = {}
+
+
+def _fail(ctx: Any, case: Any, key: str, what: str) -> None:
+    """Report at most three failing inputs per key, so one defect cannot crowd a different one out of the failure list."""
+    n = _FAIL_SEEN.get(key, 0)
+    _FAIL_SEEN[key] = n + 1
+    if n < 3:
+        ctx.fail(case, key, what)
+    else:
+        ctx.note("failures_beyond_three_per_key", sum(max(0, v - 3) for v in _FAIL_SEEN.values()))
+
+
 # ------------------------------------------------------------------------------------------ the spec, in Python
 SPEC_SUBSTRING = ["password", "token", "secret", "key", "authorization", "email", "phone", "address", "birthdate", "gender",
                   "given_name", "family_name", "middle_name", "nickname", "preferred_username", "picture", "profile", "website"]
@@ -440,35 +454,35 @@ def check_tree(ctx: Any, rig: Rig, tree: dict[str, Any], route: str, redactor: s
     placeholder = rig.lu.REDACTED
     for fname, line in lines.items():
         if not line:
-            ctx.fail(case, "C35:no-record", f"no access-log line produced ({fname})")
+            _fail(ctx, case, "C35:no-record", f"no access-log line produced ({fname})")
             return
         try:
             rec = json.loads(line)
         except ValueError:
-            ctx.fail(case, "C35:record-not-json", f"formatter {fname} produced a non-JSON line")
+            _fail(ctx, case, "C35:record-not-json", f"formatter {fname} produced a non-JSON line")
             return
         watch = allm if redactor == "raises" else (secrets if redactor in ("default", "empty") else [])
         for s in watch:
             if occurs(s, line, rec):
                 where, via = _where(tree, s)
                 if redactor == "raises":
-                    ctx.fail(case, "C35:fail-open", f"redactor raised but the record ({fname}) still carries claim value {s!r}")
+                    _fail(ctx, case, "C35:fail-open", f"redactor raised but the record ({fname}) still carries claim value {s!r}")
                 else:
-                    ctx.fail(case, f"C35:value-logged:{where}:{via}", f"secret {s!r} (under a designated key, {where}) occurs in the serialised "
+                    _fail(ctx, case, f"C35:value-logged:{where}:{via}", f"secret {s!r} (under a designated key, {where}) occurs in the serialised "
                                                                      f"record ({fname}): …{_around(line, s)}…")
                 return
         if redactor == "raises" and "claims" in rec and rec["claims"] not in ({}, None):
-            ctx.fail(case, "C35:fail-open", f"redactor raised but `claims` is present in the record ({fname})")
+            _fail(ctx, case, "C35:fail-open", f"redactor raised but `claims` is present in the record ({fname})")
             return
         if redactor == "default" and jsonlike and isinstance(rec.get("claims"), dict) and rec["claims"]:
             bad = first_unredacted(tree, rec["claims"], 0, "obj", placeholder)
             if bad:
-                ctx.fail(case, bad[0], bad[1] + f" ({fname})")
+                _fail(ctx, case, bad[0], bad[1] + f" ({fname})")
                 return
         if redactor == "default" and jsonlike and fname != "capped" and tree and "claims" not in rec:
             # keys must remain visible: a designated top-level key cannot vanish with the whole claims object
             if any(spec_designates(k) for k in tree):
-                ctx.fail(case, "C35:key-dropped:top", f"claims absent from the record ({fname}) although the default redactor did not fail")
+                _fail(ctx, case, "C35:key-dropped:top", f"claims absent from the record ({fname}) although the default redactor did not fail")
                 return
     # K: what is stored under `claims` (uncapped formatters agree; take the access formatter)
     if ctx.driver is not None and jsonlike:
@@ -530,7 +544,7 @@ def k_sensitive(ctx: Any, keys: list[str]) -> None:
         case = {"kind": "key", "key": k}
         ctx.case(case, nontrivial=True, tags=("k:sensitive", f"regex:{int(impl)}", f"spec:{int(want)}"))
         if want and not impl:
-            ctx.fail(case, "C35:name-not-covered", f"claim name {k!r} designates a credential / personal data but the redaction pattern does not match it")
+            _fail(ctx, case, "C35:name-not-covered", f"claim name {k!r} designates a credential / personal data but the redaction pattern does not match it")
         if m is not None and m != impl:
             ctx.mismatch(case, m, impl, "sensitive(k): model vs _DEFAULT_CLAIM_REDACT_RE.search")
 
@@ -642,6 +656,7 @@ def small_trees() -> list[dict[str, Any]]:
 
 
 def run(ctx: Any) -> None:
+    _FAIL_SEEN.clear()
     rng = ctx.rng
     thorough = ctx.tier == "thorough"
     max_depth = 9 if thorough or ctx.deep else 6
